@@ -102,6 +102,22 @@ def make_case(index, rng, tier):
             else:
                 body = b"5\r\nhello\r\n0\r\nX-T: " + b"t" * max(0, n_ - 5) + b"\r\n\r\n"
             msgs[rng.randrange(len(msgs))] = b"POST /c HTTP/1.1\r\nHost: a\r\nTransfer-Encoding: chunked\r\n\r\n" + body
+        if k == 4 and rng.randrange(2):
+            # more line ends in the header block than limit_request_fields allows fields - because of an earlier defect that is the first
+            # thing wrong with the block, or because continuation lines (obsolete folding, where permitted) are not fields: the verdict
+            # is the one the complete block gets, wherever the reads end
+            n_ = rng.choice([2, 3, 5])
+            cfg = {"limit_request_fields": n_}
+            if rng.randrange(2):
+                cfg["permit_obsolete_folding"] = True
+                lines = []
+                for f_ in range(rng.randrange(1, n_ + 1)):
+                    lines.append(b"X-F%d: v" % f_)
+                    lines += [b" cont%d" % c_ for c_ in range(rng.randrange(0, 4))]
+            else:
+                lines = [b"X-F%d: v" % f_ for f_ in range(n_ + rng.choice([0, 1, 2, 6]))]
+                lines.insert(rng.randrange(0, min(3, len(lines)) + 1), rng.choice([b"Bad Name: x", b"NoColon", b"X\0Y: 1", b" folded", b"X-V: a\0b", b": empty"]))
+            msgs[rng.randrange(len(msgs))] = b"GET /many HTTP/1.1\r\n" + b"".join(l + b"\r\n" for l in lines) + b"\r\n"
         if k == 0:
             # stray line terminators / blanks in front of a request line (start of the connection or after a body)
             i = rng.randrange(len(msgs))
